@@ -8,6 +8,7 @@ import (
 	"io"
 	"os/exec"
 	"sort"
+	"strconv"
 	"strings"
 	"time"
 )
@@ -320,6 +321,14 @@ func ParseBV(s string) (uint64, bool) {
 		return 1, true
 	case s == "false":
 		return 0, true
+	}
+	if n, err := strconv.ParseInt(s, 10, 64); err == nil {
+		return uint64(n), true
+	}
+	if strings.HasPrefix(s, "( - ") {
+		if n, err := strconv.ParseInt(strings.TrimSuffix(strings.TrimSpace(s[4:]), ")"), 10, 64); err == nil {
+			return uint64(-n), true
+		}
 	}
 	return 0, false
 }
